@@ -80,12 +80,17 @@ def _bcast(colspec):
 def _fn(spec):
     """generated user functions over named columns; returns a str built from reprs (scalar valued)"""
     kind, args = spec['fn'], spec['args']
+    if kind == 'kwonly' and 'key' in args:
+        kind, args = 'cat', args[:1]       # (a parameter called 'key' is handed the name of the column being computed when no column has that name: documented, not modelled)
     if kind == 'cat':
         return eval('lambda %s: "|".join(["%%r"%%(v,) for v in [%s]])' % (', '.join(args), ', '.join(args) + (',' if len(args) == 1 else '')))
     if kind == 'ident':
         return eval('lambda %s: %s' % (args[0], args[0]))
     if kind == 'const':
         return eval('lambda %s: 7' % ', '.join(args))
+    if kind == 'kwonly':
+        # a keyword-only parameter with a default: it receives the cell of the column of that name when there is one, its default otherwise
+        return eval('lambda %s, *, %s=0: "%%r|%%r" %% (%s, %s)' % (args[0], args[1], args[0], args[1]))
     if kind == 'kdef':
         # the loop idiom `lambda a, k=k: ...`: ONE code object, a different default per function
         if args[0] not in _KDEF:
@@ -100,12 +105,16 @@ _KDEF = {}
 
 def _fn_model(spec, row):
     kind, args = spec['fn'], spec['args']
+    if kind == 'kwonly' and 'key' in args:
+        kind, args = 'cat', args[:1]
     if kind == 'cat':
         return '|'.join(['%r' % (row[a],) for a in args])
     if kind == 'ident':
         return row[args[0]]
     if kind == 'const':
         return 7
+    if kind == 'kwonly':
+        return '%r|%r' % (row[args[0]], row.get(args[1], 0))
     if kind == 'kdef':
         return '%r+%r' % (row[args[0]], spec['k'])
     raise HarnessError(kind)
@@ -773,6 +782,11 @@ def gen_history(rng, nops):
                 op = {'op': 'mask', 't': t, 'm': mask, 'dst': dst}
                 if rng.random() < 0.2:
                     op['np'] = True       # the mask as a numpy bool array
+        elif k in ('mask', 'ints') and m.cols and not m.n:
+            # a table with columns and no rows: the empty mask / no positions (as numpy arrays half of the time) select its (no) rows
+            op = {'op': 'mask', 't': t, 'm': [], 'dst': dst} if k == 'mask' else {'op': 'ints', 't': t, 'i': [], 'dst': dst}
+            if rng.random() < 0.6:
+                op['np'] = True if k == 'mask' else 'int64'
         elif k == 'ints' and m.cols and m.n:
             op = {'op': 'ints', 't': t, 'i': [rng.randrange(-m.n, m.n) for _ in range(rng.randint(1, 4))], 'dst': dst}
             r_ = rng.random()
@@ -787,6 +801,8 @@ def gen_history(rng, nops):
                 op['i'] = list(range(a_, b_, st_))
             elif r_ < 0.62:
                 op['i'] = []
+                if rng.random() < 0.5:
+                    op['np'] = 'int64'       # np.where(cond)[0] with no hit
         elif k == 'project' and m.cols:
             op = {'op': 'project', 't': t, 'cs': gen.subset(rng, m.cols, 1), 'dst': dst}
             if rng.random() < 0.2:
@@ -806,6 +822,10 @@ def gen_history(rng, nops):
                 op['f']['args'] = args[:1]
             if rng.random() < 0.3:
                 op['f'] = {'fn': 'kdef', 'args': args[:1], 'k': rng.choice([1, 2, 3])}
+            elif rng.random() < 0.2:
+                second = [c_ for c_ in m.cols + free[:1] if c_ != args[0] and c_ != op['c'] and c_ != 'key']      # (a parameter called 'key' is handed the name of the column being computed: documented)
+                if second:
+                    op['f'] = {'fn': 'kwonly', 'args': [args[0], rng.choice(second)]}
         elif k == 'if_none' and m.cols and m.n:
             op = {'op': 'if_none', 't': t, 'c': rng.choice(m.cols + free[:1]), 'v': rng.choice([0, 'filled', 2.5]), 'dst': dst}
         elif k == 'derive_const' and m.cols:
